@@ -7,7 +7,7 @@
    A.  [GoodNH] / [HeadOk] : the inductive strengthening of [Connected];
        [Gc] : what each effect must satisfy; [Inv_step] : every effect that
        satisfies [Gc] preserves the invariant.
-   B.  every command only emits effects satisfying [Gc] ([run_cmd_emits]).
+   B.  every command only emits effects satisfying [Gc] ([run_cmd_conn]).
    C.  the theorems about [step], [run], prefixes of traces, injected faults,
        the K8 crash window of [branch --rename], and the counterexamples that
        show why the hypotheses are needed.
@@ -2220,6 +2220,54 @@ Section Examples.
   Qed.
 End Examples.
 
+Section Examples2.
+  Local Open Scope string_scope.
+  (* why the invariant has to be stronger than [Connected]: [Connected] alone
+     is not preserved by [commit] (the staged path decides whether the tree
+     that is written can be read back) *)
+  Definition ex_wp : world := Eval vm_compute in run (firstn 5 ex_hist_nul) w_empty.
+
+  Lemma one_blob_store : forall k0 p0 d0,
+    parse_payload p0 = Some (KBlob, d0) -> sha1 p0 = k0 ->
+    (forall id d, get_kind [(k0, p0)] KTree id = Some d -> False) /\
+    (forall id c, get_commit [(k0, p0)] id = Some c -> False) /\
+    WellNamed [(k0, p0)].
+  Proof.
+    intros k0 p0 d0 Hp Hs.
+    assert (Hobj : forall id kd, get_obj [(k0, p0)] id = Some kd -> kd = (KBlob, d0)).
+    { intros id kd H. unfold get_obj in H. cbn [st_lookup] in H.
+      destruct (bytes_eqb k0 id); [|discriminate H]. rewrite Hp in H.
+      destruct (bytes_eqb (sha1 p0) id); [|discriminate H]. injection H as <-. reflexivity. }
+    split; [|split].
+    - intros id d H. apply get_kind_iff in H. apply Hobj in H. discriminate H.
+    - intros id c H. unfold get_commit in H.
+      destruct (get_kind [(k0, p0)] KCommit id) as [d|] eqn:E; [|discriminate H].
+      apply get_kind_iff in E. apply Hobj in E. discriminate E.
+    - intros id p H. cbn [st_lookup] in H. destruct (bytes_eqb k0 id) eqn:E; [|discriminate H].
+      apply bytes_eqb_eq in E. injection H as <-. rewrite Hs. exact E.
+  Qed.
+
+  Example connected_not_inductive :
+    exists w a, action_ok a /\ Connected w /\ ~ Bad (step_w a w) /\ ~ Connected (step_w a w).
+  Proof.
+    exists ex_wp, (ACmd ex_env (CCommit (str "first"))).
+    assert (Hstep : step_w (ACmd ex_env (CCommit (str "first"))) ex_wp = ex_wn) by (vm_compute; reflexivity).
+    split; [exact Logic.I|]. split.
+    - destruct (one_blob_store (fst (hd ([], []) (w_objs ex_wp))) (snd (hd ([], []) (w_objs ex_wp)))
+                  (str "hello")) as (Ht & Hc & Hn); [vm_compute; reflexivity | vm_compute; reflexivity |].
+      change [(fst (hd ([], []) (w_objs ex_wp)), snd (hd ([], []) (w_objs ex_wp)))] with (w_objs ex_wp) in *.
+      split; [|split; [|split; [|split]]].
+      + intros n id H. discriminate H.
+      + left. reflexivity.
+      + constructor; [|constructor]. exists (str "hello"). vm_compute. reflexivity.
+      + split.
+        * intros id d H. destruct (Ht id d H).
+        * intros id c H. destruct (Hc id c H).
+      + exact Hn.
+    - rewrite Hstep. destruct nul_path_not_connected as (_ & H1 & H2). split; assumption.
+  Qed.
+End Examples2.
+
 (* ================================================================== *)
 Print Assumptions Inv_step.
 Print Assumptions run_cmd_conn.
@@ -2234,3 +2282,4 @@ Print Assumptions refs_commits.
 Print Assumptions crash_window_rename_refuted.
 Print Assumptions nonvacuous.
 Print Assumptions nul_path_not_connected.
+Print Assumptions connected_not_inductive.
